@@ -5,7 +5,10 @@
 //!   edit v   the owner publishes an identity revision changing the visibility
 //!   commit   the owner commits to the default branch
 //!   pull     the seed fetches from the owner (the real worker `Handle::fetch`)
-//!   request  the requester fetches from the seed (the real `Worker::is_authorized` on the seed)
+//!   block    the seed blocks the repository (`rad block`; its default policy is permissive)
+//!   request  the requester fetches from the seed (the real `Worker::is_authorized` on the seed);
+//!            "locked": while another connection holds the write lock of the seed's policy database
+//!            for longer than the reader waits
 //! Output (one JSON line): after every pull the visibility in the document at the seed's canonical
 //! refs/rad/id, and the outcome of the request. Anything that does not work for reasons of the
 //! environment (a fetch that fails where the model expects success) is reported as `inconclusive`,
@@ -15,7 +18,10 @@ use std::time::Duration;
 
 use hwv::*;
 use radicle::identity::{Identity, Visibility};
-use radicle::node::config::Relay;
+use radicle::node::config::{DefaultSeedingPolicy, Relay};
+use radicle::node::policy::store::Store as PolicyStore;
+use radicle::node::policy::Policy;
+use radicle::node::POLICIES_DB_FILE;
 use radicle::node::{Alias, Config, FetchResult, Handle as _};
 use radicle::storage::{ReadRepository, ReadStorage, SignRepository, WriteRepository};
 use radicle_node::service::policy::Scope;
@@ -47,7 +53,12 @@ fn main() {
     let timeout = Duration::from_secs(args.get("--timeout").and_then(|s| s.parse().ok()).unwrap_or(60));
     let tmp = tempfile::tempdir().unwrap();
     let mut alice = Node::init(tmp.path(), relay("alice"));
-    let bob = Node::init(tmp.path(), relay("bob"));
+    // the seed is permissive: what it does not block explicitly, it serves
+    // (one worker, so that the request made under the lock is handled by a worker whose database connection has
+    // been used before: a fresh connection fails earlier, when it reads the schema, and that error is not the
+    // one under test)
+    let bob = Node::init(tmp.path(), Config { seeding_policy: DefaultSeedingPolicy::permissive(), workers: 1, ..relay("bob") });
+    let policies_db = bob.home.node().join(POLICIES_DB_FILE);
     let eve = Node::init(tmp.path(), relay("eve"));
     let rid = alice.project("acme", "");
     let alice = alice.spawn();
@@ -114,10 +125,48 @@ fn main() {
                         break;
                     }
                 },
+                "block" => {
+                    PolicyStore::open(&policies_db).unwrap().set_seed_policy(&rid, Policy::Block).unwrap();
+                }
                 "request" => {
-                    eve.handle.seed(rid, Scope::All).unwrap();
+                    let locked = op.get(1).and_then(|x| x.as_str()) == Some("locked");
+                    // Nb. once the requester seeds the repository its node may fetch it on its own (from the seed's
+                    // inventory announcement): under "locked" it must not seed before the lock is held
                     eve.connect(&bob);
-                    match eve.handle.fetch(rid, bob.id, timeout) {
+                    if !locked {
+                        eve.handle.seed(rid, Scope::All).unwrap();
+                    }
+                    // another process writing to the seed's policy database: holds the lock until the request is over
+                    // (at most 10 s; the reader waits 3 s)
+                    if locked {
+                        // prime the seed's worker: a request for a repository nobody has (refused after the policy lookup)
+                        let bogus = radicle::identity::RepoId::from(radicle::git::Oid::from(git2::Oid::hash_object(git2::ObjectType::Blob, b"no such repository").unwrap()));
+                        eve.handle.seed(bogus, Scope::All).unwrap();
+                        let _ = eve.handle.fetch(bogus, bob.id, timeout);
+                    }
+                    let (ready_tx, ready_rx) = std::sync::mpsc::channel::<()>();
+                    let (release_tx, release_rx) = std::sync::mpsc::channel::<()>();
+                    let writer = locked.then(|| {
+                        let path = policies_db.clone();
+                        std::thread::spawn(move || {
+                            let mut db = sqlite::Connection::open(path).unwrap();
+                            db.set_busy_timeout(20_000).unwrap();
+                            db.execute("BEGIN EXCLUSIVE").unwrap();
+                            ready_tx.send(()).unwrap();
+                            release_rx.recv_timeout(Duration::from_secs(10)).ok();
+                            db.execute("ROLLBACK").unwrap();
+                        })
+                    });
+                    if locked {
+                        ready_rx.recv().unwrap();
+                        eve.handle.seed(rid, Scope::All).unwrap();
+                    }
+                    let result = eve.handle.fetch(rid, bob.id, timeout);
+                    release_tx.send(()).ok();
+                    if let Some(w) = writer {
+                        w.join().ok();
+                    }
+                    match result {
                         Ok(FetchResult::Success { .. }) => outcome = json!("served"),
                         Ok(FetchResult::Failed { reason }) => {
                             let has = eve.storage.contains(&rid).unwrap_or(false);
